@@ -25,6 +25,12 @@ pub struct C09;
 
 fn date_expr(r: &mut Rng, g: &SemGen, lang: &str, allow_rel: bool) -> Expr {
     if allow_rel && r.chance(1, 4) { return Expr::Lit(g.rel_day(r, lang)); }
+    if r.chance(1, 14) {
+        // 28/29 February and 1 March of century years (1900 and 2100 are not leap years, 2000 and 2400 are)
+        let y = *r.pick(&[1700i64, 1800, 1900, 2000, 2100, 2200, 2300, 2400, 1600]);
+        let (m, d) = *r.pick(&[(2u32, 29u32), (2, 29), (2, 28), (3, 1)]);
+        return Expr::Lit(Lit::Date(g.date_lit(r, lang, y, m, d, false)));
+    }
     let y = match r.below(8) { 0 => 1 + r.below(9999) as i64, 1 => *r.pick(&[2000, 2024, 1900, 2100, 2400]), _ => 1900 + r.below(300) as i64 };
     let m = 1 + r.below(12) as u32;
     let d = match r.below(6) { 0 => days_in_month(y, m), 1 => 1, 2 => 28.min(days_in_month(y, m)), _ => 1 + r.below(days_in_month(y, m) as u64) as u32 };
@@ -54,6 +60,19 @@ fn gen_line(r: &mut Rng, g: &SemGen, lang: &str) -> Stmt {
         5 => Expr::Bin { l: b(date_expr(r, g, lang, true)), op: *r.pick(&['+', '-']), r: b(Expr::Lit(g.dur_days(r, lang, 800))), tight: false },
         6 | 7 => Expr::Bin { l: b(date_expr(r, g, lang, true)), op: *r.pick(&['+', '-']), r: b(Expr::Lit(g.dur_months(r, lang))), tight: false },
         8 | 9 if lang == "en" => Expr::Between { a: b(date_expr(r, g, lang, true)), b: b(date_expr(r, g, lang, true)) },
+        11 if r.chance(1, 2) => {
+            // the 29th (or 30th/31st) plus or minus whole months, landing in a February: the day exists only in a leap year
+            let ty = *r.pick(&[2000i64, 2004, 2020, 2024, 2028, 2400, 1996, 2023, 1900, 2100]);
+            let n = 1 + r.below(26) as i64;
+            let fwd = r.chance(2, 3);
+            // source month index (months since year 0) such that source +/- n = February of ty
+            let target = ty * 12 + 1;
+            let src = if fwd { target - n } else { target + n };
+            let (sy, sm) = (src.div_euclid(12), (src.rem_euclid(12) + 1) as u32);
+            let d = (*r.pick(&[29u32, 29, 29, 30, 28])).min(days_in_month(sy, sm));
+            let dur = if n % 12 == 0 && r.chance(1, 2) { let c = n / 12; Lit::Dur(vec![(c, g.dur_word(r, lang, 365 * 86400, c != 1), 365 * 86400)]) } else { Lit::Dur(vec![(n, g.dur_word(r, lang, 30 * 86400, n != 1), 30 * 86400)]) };
+            Expr::Bin { l: b(Expr::Lit(Lit::Date(g.date_lit(r, lang, sy, sm, d, false)))), op: if fwd { '+' } else { '-' }, r: b(Expr::Lit(dur)), tight: false }
+        }
         10 if lang == "en" => { // today / tomorrow / yesterday are consecutive
             let words = &g.data.langs["en"].today_words;
             let pick = |k: i64| -> Lit { let w = words.iter().find(|(_, v)| **v == k).map(|(w, _)| w.clone()).unwrap(); Lit::RelDay { k, word: w } };
